@@ -80,6 +80,12 @@ def gen_cases(tier, rng):
         nm = 'p' * L
         cases.append('H:f=16 prog:%s arg:i:i0: argv:2d69,35 kind:progname' % A.hx(nm))
         cases.append('H:f=32 prog:%s arg:i:i0: argv:2d69,35 kind:progname' % A.hx('/' * (L % 3) + nm))
+    # long program names (path components included) with the sources that copy the program name
+    for L in (100, 254, 255, 256, 257, 300, 511, 512, 1000, 4100):
+        for pre in ('', 'some/dir/'):
+            nm = pre + 'q' * (L - len(pre))
+            cases.append('H:f=16 prog:%s arg:i:i0: argv:2d69,35 kind:progname' % A.hx(nm))
+            cases.append('H:f=32 prog:%s arg:i:i0: argv:2d69,35 kind:progname' % A.hx(nm))
     guard = 0
     while len(cases) < n and guard < n * 20:
         guard += 1
